@@ -44,6 +44,7 @@ type Layout struct {
 	StrDecs []StrDec    `json:"strdecs"`
 	StrCaps map[int]int `json:"strcaps"` // field -> cap enforced by Encode's guard
 	OffWire []string    `json:"offwire"` // struct fields that neither Encode nor Decode touches
+	DecGuards [][2]int  `json:"decguards"` // (field, max): Decode returns an error when field > max, before any dependent slice
 }
 
 // dropOffWire removes fields that appear neither in Enc nor Dec and renumbers.
@@ -86,6 +87,9 @@ func (l *Layout) dropOffWire() {
 		if l.StrDecs[i].LenField >= 0 {
 			l.StrDecs[i].LenField = ren[l.StrDecs[i].LenField]
 		}
+	}
+	for i := range l.DecGuards {
+		l.DecGuards[i][0] = ren[l.DecGuards[i][0]]
 	}
 	nc := map[int]int{}
 	for k, v := range l.StrCaps {
@@ -539,6 +543,23 @@ func (x *lx) decStmt(s ast.Stmt) error {
 						return nil
 					}
 				}
+			}
+		}
+		// guard on a decoded length field: if self.F > N { return err }
+		if be, ok := v.Cond.(*ast.BinaryExpr); ok && v.Else == nil && len(v.Body.List) == 1 && isReturn(v.Body.List[0]) && be.Op == token.GTR {
+			f, ok1 := x.field(be.X)
+			n, ok2 := x.constInt(be.Y)
+			if ok1 && ok2 && x.lay.Dec[f] != nil {
+				effective := true
+				for _, sd := range x.lay.StrDecs {
+					if sd.LenField == f {
+						effective = false // the slice was already taken
+					}
+				}
+				if effective {
+					x.lay.DecGuards = append(x.lay.DecGuards, [2]int{f, n})
+				}
+				return nil
 			}
 		}
 		return x.errf(v, "unrecognised if statement")
